@@ -53,6 +53,33 @@ let handle (toks : string list) : string =
       let r = reg_run (List.map op ops) in
       let q = Some { minx = Z0; miny = Z0; maxx = Z0; maxy = Z0 } in
       if selected r (bytes_of_hex name) (bytes_of_hex key) q q then "1" else "0"
+  | "setold" :: now :: id :: objs ->
+      (* cmdSET's commandDetails.old (Model.RoamSet.set_details old_as_is) for a SET of <id> at clock <now> on the
+         collection <objs> = <idhex>,<deadline or -> ... : "1" when there is a previous object, "0" otherwise *)
+      let mk t = match String.split_on_char ',' t with
+        | [i; d] -> { s_id = bytes_of_hex i; s_geo = (); s_exp = (if d = "-" then None else Some (z_of_string d)) }
+        | _ -> failwith "bad stored object" in
+      let col = List.map mk objs in
+      let o = { s_id = bytes_of_hex id; s_geo = (); s_exp = None } in
+      (match snd (set_details (fun n x -> old_as_is n x) (z_of_string now) col o) with Some _ -> "1" | None -> "0")
+  | "hequals" :: rest ->
+      (* Hook.Equals with the tests read from the source (Gen.HookEquals.equals_checks):
+         hequals <key> <name> <expires> E <endpoint>* M <name>:<value>* A <arg>* / <the same for the second definition> *)
+      let rec split_at sep acc = function
+        | [] -> (List.rev acc, [])
+        | x :: tl when x = sep -> (List.rev acc, tl)
+        | x :: tl -> split_at sep (x :: acc) tl in
+      let def toks = match toks with
+        | k :: n :: x :: "E" :: tl ->
+            let (eps, tl) = split_at "M" [] tl in
+            let (ms, args) = split_at "A" [] tl in
+            let meta t = match String.split_on_char ':' t with
+              | [a; b] -> (bytes_of_hex a, bytes_of_hex b) | _ -> failwith "bad meta" in
+            { hd_key = bytes_of_hex k; hd_name = bytes_of_hex n; hd_endpoints = List.map bytes_of_hex eps;
+              hd_metas = List.map meta ms; hd_expires = z_of_string x; hd_args = List.map bytes_of_hex args }
+        | _ -> failwith "bad definition" in
+      let (a, b) = split_at "/" [] rest in
+      if hook_equals_by equals_checks (def a) (def b) then "1" else "0"
   | ["isglob"; pat] -> if is_glob (bytes_of_hex pat) then "1" else "0"
   | ["round"; d] -> string_of_z (round_mm (z_of_string d))
   | "scan" :: mid :: scan :: ids ->
